@@ -302,16 +302,21 @@ class Interp:
             return self._call_pyfunc(fn, list(args), kwargs, fn)
         symbolic = contains_sym(args) or contains_sym(kwargs)
         if isinstance(fn, type):
-            if issubclass(fn, BaseException):
+            if issubclass(fn, (BaseException, ast.AST)):
                 return fn(*args, **kwargs)
             if symbolic:
                 return self.instantiate(fn, args, kwargs)
         if symbolic:
             name = getattr(fn, "__qualname__", None) or getattr(fn, "__name__", repr(fn))
-            if isinstance(fn, types.BuiltinMethodType) and isinstance(fn.__self__, (list, dict, tuple)):
-                # list.append(sym) etc.: containers of symbolic values are fine natively
-                if name.split(".")[-1] in ("append", "extend", "insert", "pop", "get", "setdefault", "update",
-                                           "items", "keys", "values", "copy", "clear", "reverse"):
+            if isinstance(fn, types.BuiltinMethodType) and isinstance(fn.__self__, (list, dict, tuple, set)):
+                # list.append(sym) etc.: containers of symbolic values are fine natively (symbolic
+                # wrappers hash by identity, so a python set/dict of them never merges two of them)
+                last = name.split(".")[-1]
+                if isinstance(fn.__self__, dict) and last in ("get", "setdefault", "pop") and args and is_sym(args[0]) \
+                        and not isinstance(args[0], SObj):
+                    raise Undecided(f"dict.{last} with symbolic key")
+                if last in ("append", "extend", "insert", "pop", "get", "setdefault", "update",
+                            "items", "keys", "values", "copy", "clear", "reverse", "add"):
                     return self.native(fn, args, kwargs)
             self.ctx.note(f"unmodelled-call:{name}")
             return Opaque(name)
@@ -421,6 +426,9 @@ class Interp:
 
     def _bind_class_attr(self, raw, obj, cls):
         if isinstance(raw, types.FunctionType):
+            m = self.models.get(raw)
+            if m is not None:
+                return BoundModel(m, obj, raw.__name__)
             clo = self.closure_of(raw) or self._foreign_closure(raw)
             if clo is None:
                 raise Undecided(f"no source for method {raw.__qualname__}")
@@ -1295,7 +1303,8 @@ class Interp:
             raise PyRaise(IndexError("list index out of range"))
         if isinstance(k, slice) and contains_sym((k.start, k.stop, k.step)):
             raise Undecided("symbolic slice of a concrete sequence")
-        if isinstance(c, dict) and is_sym(k):
+        if isinstance(c, dict) and ((is_sym(k) and not isinstance(k, SObj)) or
+                                    (not is_sym(k) and any(is_sym(x) and not isinstance(x, SObj) for x in c))):
             for kk in list(c.keys()):
                 r = self.compare(ast.Eq, kk, k)
                 if self.truth(r):
@@ -1319,8 +1328,16 @@ class Interp:
             return self.call(self._bind_class_attr(raw, c, cls), [k, v])
         if isinstance(c, Sym):
             raise Undecided(f"subscript store on {c!r}")
-        if is_sym(k) and not isinstance(k, SObj):
-            raise Undecided("store with symbolic key")
+        if (is_sym(k) and not isinstance(k, SObj)) or (isinstance(c, dict) and not is_sym(k)
+                                                        and any(is_sym(x) and not isinstance(x, SObj) for x in c)):
+            if not isinstance(c, dict):
+                raise Undecided("store with symbolic index")
+            for kk in list(c.keys()):
+                if self.truth(self.compare(ast.Eq, kk, k)):
+                    c[kk] = v
+                    return
+            c[k] = v
+            return
         try:
             c[k] = v
         except Exception as e:
